@@ -26,14 +26,16 @@ ASSUMPTIONS = [
     "enum auto-bins are ordered by ascending enumerator value",
     "bin names are not part of C10 (only counted as naming observations)",
     "sample values are always values of the coverpoint's declared type",
+    "wildcard bins are regular bins: ignore/illegal values are removed from them too (statement: 'never count toward regular bins')",
 ]
 CASE_TIMEOUT = 120
 
 F_POP0 = "exclude-pops-first-range"
+F_WIGN = "ignore-not-applied-to-wildcard"
 
 
 def plan(tier):
-    return {"ncases": 3200 if tier == "quick" else 100000, "budget_s": 55 if tier == "quick" else 800}
+    return {"ncases": 2400 if tier == "quick" else 60000, "budget_s": 55 if tier == "quick" else 800}
 
 
 # ---------------------------------------------------------------- generator
@@ -69,6 +71,20 @@ def gen_case(rng, tier, idx):
                 cp["ignore"] = ign
             if ill:
                 cp["illegal"] = ill
+        if f["t"] == "bit" and cp["bins"] and rng.random() < 0.07:
+            # a wildcard declaration among the regular bins (top bit of the type fixed, value
+            # inside the mask, one pattern: the C19 mechanisms stay out of this check)
+            w = f["w"]
+            bits = [rng.choice("01xx") for _ in range(w)]
+            bits[0] = rng.choice("01")
+            pat = "0b" + "".join(bits)
+            if rng.random() < 0.5:
+                cp["bins"].append(["wq", {"k": "wild", "pats": [pat]}])
+            else:
+                cp["bins"].append(["wq", {"k": "warray", "n": rng.choice([None, None, 2, 3]), "pats": [pat]}])
+            if rng.random() < 0.5:
+                mv = covref.wild_values([pat], tv)
+                cp.setdefault("ignore", []).append(["igw", {"k": "bin", "items": [rng.choice(mv)]}])
         if rng.random() < 0.5:
             cand = gates + [x for x in fields if x["n"] != f["n"]]
             cp["iff"] = cb.gen_iff(rng, cand, enums, callable_only=(style == "lm"))
@@ -105,7 +121,37 @@ def _read(m):
     return cb.read_hits(m)[0]
 
 
+def wild_excl_pred(shape):
+    """Mechanism predicate of finding 'ignore-not-applied-to-wildcard': a coverpoint
+    declares a wildcard bin / wildcard bin array and an ignore or illegal bin names
+    a value of the coverpoint's type that the wildcard pattern matches."""
+    for rcp in shape.cps:
+        for _, b in (rcp.spec.get("bins") or []):
+            if b["k"] in ("wild", "warray"):
+                if any(covref.wild_match(v, b["pats"]) for v in rcp.excluded if v in set(rcp.tvalues)):
+                    return True
+    return False
+
+
 def exec_case(spec):
+    """The case is judged against the reference model.  Only when that yields an
+    unclassified violation AND the input satisfies wild_excl_pred, the same case
+    is replayed against the alternative model 'ignore/illegal values are not
+    removed from wildcard bins': if the library agrees with that model on every
+    sample, the violation carries the finding key F_WIGN."""
+    res = _run_case(spec, True)
+    if res.get("status") == common.VIOL and not res.get("finding"):
+        if wild_excl_pred(covref.RefShape(spec["cg"], 0)):
+            alt = _run_case(spec, False)
+            res["counters"].inc("wildcard_ignore_replays")
+            if alt.get("status") == common.HELD:
+                res["finding"] = F_WIGN
+                res["msg"] = (res.get("msg") or "") + " | library agrees on every sample with the model in which ignore/illegal " \
+                    "values are not removed from wildcard bins"
+    return res
+
+
+def _run_case(spec, wild_excl):
     import random
     import_vsc()
     cb.reset_registry()
@@ -114,7 +160,7 @@ def exec_case(spec):
     src = cb.to_source(cg)
     C = common.Counters()
     res = {"counters": C, "nontrivial": False, "source": src}
-    shape = covref.RefShape(cg, 0)
+    shape = covref.RefShape(cg, 0, wild_excl)
     tally = covref.Tally(shape)
     pop0 = [pop0_decls(c) for c in shape.cps]
     C.inc("coverpoints", len(shape.cps))
